@@ -490,6 +490,15 @@ pub fn execute_c02(scn: &WfScn, ctx: &mut Ctx) {
     let written: Vec<&Geom> = run.written.iter().map(|i| &run.geoms[*i]).collect();
     let shx = if scn.w.with_shx { Some(wb.data(SHX)) } else { None };
     let _ = crate::fam_rt::check_bytes(ctx, ty, wb.data(SHP), shx, &written, "after-failed-finalize");
+    // C09: a finalize that fails is still a finalize call of the interleaving - what the drop
+    // leaves is what writing the same shapes and simply dropping the writer leaves
+    let plain = WProg { shapes: scn.w.shapes.clone(), others: vec![], calls: scn.w.calls.iter().filter(|c| matches!(c, WCall::W(_))).cloned().collect(), ending: Ending::Drop, with_shx: scn.w.with_shx, stack: StackCfg::Direct };
+    if let Some(g) = golden(&plain) {
+        if wb.data(SHP) != &g.shp[..] || (scn.w.with_shx && wb.data(SHX) != &g.shx[..]) {
+            let at = wb.data(SHP).iter().zip(g.shp.iter()).position(|(a, b)| a != b);
+            ctx.fail("C09", "same-as-drop", "after-failed-finalize", format!("history {} with a finalize that failed once: the files left by the drop differ from write-all-then-drop (.shp {} vs {} bytes, first difference at {:?})", pattern(&scn.w), wb.data(SHP).len(), g.shp.len(), at));
+        }
+    }
 }
 
 /// One unit = one seeded workload with finalize calls anywhere (plain or retried up to three
@@ -514,6 +523,26 @@ pub fn unit_c02(seed: u64, ctx: &mut Ctx, ctl: &mut UnitCtl) {
     }
     if !calls.iter().any(|c| matches!(c, WCall::Fin | WCall::FinRetry)) {
         calls.insert(1, WCall::FinRetry);
+    }
+    let mut shapes = shapes;
+    if r.chance(1, 3) {
+        // nothing but NaN in Z and M up to the first finalize: the header ranges of those
+        // dimensions are still untouched when it runs
+        let first_fin = calls.iter().position(|c| matches!(c, WCall::Fin | WCall::FinRetry)).unwrap_or(0);
+        let before: Vec<usize> = calls[..first_fin].iter().filter_map(|c| if let WCall::W(i) = c { Some(*i) } else { None }).collect();
+        let which = r.below(3);
+        for i in before {
+            for p in shapes[i].parts.iter_mut() {
+                for v in p.pts.iter_mut() {
+                    if which != 1 {
+                        v[3] = f64::NAN.to_bits();
+                    }
+                    if which != 0 {
+                        v[2] = f64::NAN.to_bits();
+                    }
+                }
+            }
+        }
     }
     let w = WProg { shapes, others: vec![], calls, ending: if r.chance(1, 2) { Ending::Drop } else { Ending::FinDrop }, with_shx: r.chance(2, 3), stack: StackCfg::Direct };
     let world = World::new(Plan::default());
